@@ -105,6 +105,23 @@ fn check(rep: &mut Report, _model: &mut Model, cfg: &Cfg, ops: &[Op], kind: u8, 
         rep.violation("oracle", "C13/sink", sig("bytes-differ", "sink"), "bytes differ from the in-memory archive", case("sink"));
         return false;
     }
+    // (1b) the Write adapter over a file (helpers::StreamWriter) fed by io::copy from a throttled source:
+    // the file receives its bytes in as many append calls as the copy makes; same files expected.
+    {
+        let k2 = if kind == 4 { 2 } else { kind };
+        let mut r2 = rng.fork();
+        let streamed = build_streamed(cfg, ops, |b| ThrottledSource { inner: Cursor::new(b), sched: Sched { kind: k2, rng: r2.fork(), calls: 0, fail_at: 0 } });
+        if streamed.results != reference.results {
+            rep.violation("oracle", "C13/stream-writer", sig("results-differ", "stream-writer"), &format!("calls through StreamWriter answer differently: {:?}", streamed.results.iter().zip(&reference.results).find(|(a, b)| a != b)), case("stream-writer"));
+            return false;
+        }
+        let good = read_all(&streamed.bytes, cfg).map(|got| got.len() == spec.len() && spec.iter().all(|(n, w)| got.get(n).map(|f| f.content.as_ref().ok() == Some(w) && f.hash.is_ok()).unwrap_or(false))).unwrap_or(false);
+        if !good {
+            rep.violation("oracle", "C13/stream-writer", sig("files-differ", "stream-writer"), "files written through StreamWriter/io::copy from a throttled source differ from the ones appended in one call", case("stream-writer"));
+            return false;
+        }
+        rep.count("stream-writer:same");
+    }
     // (2) source schedule: normal reader.  The property speaks of sources returning fewer bytes
     // than asked, not of interrupted reads: schedule 4 is used without the injected errors here.
     let kind = if kind == 4 { 2 } else { kind };
